@@ -1114,6 +1114,80 @@ func TestC18(t *testing.T) {
 	// (the commands are left out: restating a command is refused before any AVP is looked at)
 	broken := regexp.MustCompile(`(?s)<command.*?</command>`).ReplaceAllString(lib.GenXML, "")
 	broken = strings.Replace(broken, "</application>", `<avp name="Broken-Type" code="29999" must="M" may="P" must-not="V" may-encrypt="-"><data type="Unsigned23"/></avp></application>`, 1)
+	// a grouped AVP kept by the application as the bytes of its members (datatype.Grouped, or a
+	// plain []byte: what Marshal documents for AVPs like Failed-AVP): the field comes back as it
+	// was, directly and after the wire
+	type rawGroup struct {
+		U   uint32           `avp:"G-U32"`
+		Raw datatype.Grouped `avp:"G-Group"`
+		B   []byte           `avp:"G-Group2"`
+	}
+	rec.Suite("group-kept-as-bytes", rec.N(200, 20000), func(c *ev.Case) {
+		r := c.R
+		mk := func() ([]byte, []*refcodec.Node) {
+			var kids []*refcodec.Node
+			var raw []byte
+			for k := r.IntN(4); k > 0; k-- {
+				var n *refcodec.Node
+				if r.IntN(2) == 0 {
+					n = nStr(9001, fM, refcodec.OctetString, []byte(rStr(r, true)))
+				} else {
+					n = nU(9009, fM, refcodec.Unsigned32, uint64(r.Uint32()))
+				}
+				kids = append(kids, n)
+				raw = append(raw, n.Encode()...)
+			}
+			return raw, kids
+		}
+		src := &rawGroup{U: r.Uint32()}
+		var k1, k2 []*refcodec.Node
+		src.Raw, k1 = mk()
+		src.B, k2 = mk()
+		if src.Raw == nil {
+			src.Raw = datatype.Grouped{}
+		}
+		if src.B == nil {
+			src.B = []byte{}
+		}
+		c.Class("group-kept-as-bytes/members=%d+%d", len(k1), len(k2))
+		sig := func(op string) ev.Sig { return ev.Sig{"op": op, "shape": "group-kept-as-bytes"} }
+		m := diam.NewRequest(8388000, 0, g.Parser)
+		var wire []byte
+		var err error
+		if p, bad := guard(func() {
+			if err = m.Marshal(src); err == nil {
+				wire, err = m.Serialize()
+			}
+		}); bad || err != nil {
+			c.Fail(sig("marshal-error"), nil, nil, "Marshal of a struct that keeps two groups as the bytes of their members: err=%v %s", err, p)
+			return
+		}
+		want := refcodec.EncodeMessage(refcodec.Header{Version: 1, Flags: 0x80, Code: 8388000, HopByHop: m.Header.HopByHopID, EndToEnd: m.Header.EndToEndID},
+			[]*refcodec.Node{nU(9009, fM, refcodec.Unsigned32, uint64(src.U)), nG(9018, fM, k1...), nG(9019, fM, k2...)})
+		if !bytes.Equal(wire, want) {
+			c.Fail(sig("marshal-avps"), want, map[string]any{"lib": ev.Hex(wire)}, "the message marshalled from groups kept as bytes differs from the hand-built one at byte %d", firstDiff(wire, want))
+			return
+		}
+		for _, via := range []string{"direct", "wire"} {
+			mm := m
+			if via == "wire" {
+				if mm, err = diam.ReadMessage(bytes.NewReader(wire), g.Parser); err != nil {
+					c.Fail(sig("roundtrip-wire"), wire, nil, "ReadMessage: %v", err)
+					return
+				}
+			}
+			var dst rawGroup
+			if p, bad := guard(func() { err = mm.Unmarshal(&dst) }); bad || err != nil {
+				c.Fail(sig("roundtrip-"+via), wire, nil, "Unmarshal (%s): err=%v %s", via, err, p)
+				return
+			}
+			if dst.U != src.U || !bytes.Equal(dst.Raw, src.Raw) || !bytes.Equal(dst.B, src.B) {
+				c.Fail(sig("roundtrip-"+via), wire, nil, "a struct that keeps grouped AVPs as the bytes of their members, marshalled and unmarshalled (%s): datatype.Grouped field %x -> %x, []byte field %x -> %x", via, []byte(src.Raw), []byte(dst.Raw), src.B, dst.B)
+				return
+			}
+		}
+		c.Event("roundtrips", 2)
+	})
 	rec.Suite("after-failed-load", rec.N(40, 4000), func(c *ev.Case) {
 		gf, err := refdict.Parse("gen", lib.GenXML)
 		if err != nil {
